@@ -4,6 +4,7 @@ cd "$(dirname "$0")/.." || exit 2
 rc=0
 for d in seeded/*/; do
   sid=$(basename $d); prop=${sid%%-*}
+  if [ -f $d/UNCAUGHT ]; then echo "$sid: not caught by design ($(head -1 $d/UNCAUGHT))"; continue; fi
   if [ -f $d/OBSOLETE ]; then echo "$sid: skipped (obsolete: $(head -1 $d/OBSOLETE))"; continue; fi
   res=$(SKIPTESTS=1 tools/try_seed.sh $prop $d 2>&1 | grep "^RESULT" | tail -1)
   echo "$sid: $res"
